@@ -381,6 +381,7 @@ func Make(row Row, hdr *Header, cols []string, th *Thread, st *SuTran) string {
 // i.e. possibly removing fields, possibly decoding
 // - spec1 length >= spec2 length
 // - comp may not be missing empty trailing fields
+// The result has trailing empty fields trimmed, like Spec.Key
 func TruncFunc(spec1, spec2 Spec) func(string) string {
 	// Single field to single field - both don't encode
 	if !spec1.Encodes() && !spec2.Encodes() {
@@ -393,7 +394,8 @@ func TruncFunc(spec1, spec2 Spec) func(string) string {
 	}
 
 	// Both multi-field with same number of fields
-	if len(spec1.Fields) == len(spec2.Fields) {
+	// (with Fields2 the key may have more fields than spec1.Fields)
+	if len(spec1.Fields) == len(spec2.Fields) && len(spec1.Fields2) == 0 {
 		return func(s string) string { return s }
 	}
 
@@ -413,6 +415,11 @@ func TruncFunc(spec1, spec2 Spec) func(string) string {
 		if nextSep == -1 {
 			return comp
 		}
-		return comp[:pos+nextSep]
+		comp = comp[:pos+nextSep]
+		// trim trailing empty fields so the result matches Spec.Key
+		for strings.HasSuffix(comp, Sep) {
+			comp = comp[:len(comp)-sepLen]
+		}
+		return comp
 	}
 }
